@@ -502,8 +502,15 @@ where
             self.cached = None;
             return;
         }
-        // matrix of weighted model function values
-        let Phi_w = self.model.eval().ok().map(|Phi| &self.weights * Phi);
+        // matrix of weighted model function values. The singular value
+        // decomposition below does not terminate (or panics) for non-finite
+        // input, so such a matrix is treated like a failed evaluation.
+        let Phi_w = self
+            .model
+            .eval()
+            .ok()
+            .map(|Phi| &self.weights * Phi)
+            .filter(is_all_finite);
 
         // calculate the svd
         let svd_epsilon = self.svd_epsilon;
@@ -641,8 +648,15 @@ where
             self.cached = None;
             return;
         }
-        // matrix of weighted model function values
-        let Phi_w = self.model.eval().ok().map(|Phi| &self.weights * Phi);
+        // matrix of weighted model function values. The singular value
+        // decomposition below does not terminate (or panics) for non-finite
+        // input, so such a matrix is treated like a failed evaluation.
+        let Phi_w = self
+            .model
+            .eval()
+            .ok()
+            .map(|Phi| &self.weights * Phi)
+            .filter(is_all_finite);
 
         // calculate the svd
         let svd_epsilon = self.svd_epsilon;
@@ -754,6 +768,11 @@ where
             None
         }
     }
+}
+
+/// whether all elements of the matrix are finite, i.e. neither infinite nor NaN
+fn is_all_finite<T: Scalar + ComplexField>(matrix: &DMatrix<T>) -> bool {
+    matrix.iter().all(|elem| elem.is_finite())
 }
 
 /// copy the
